@@ -31,6 +31,7 @@ pub fn run(pid: &str, tier: &str, seed: u64) {
     "C03" => crate::o_star::c03(tier, seed),
     "C04" => crate::o_star::c04(tier, seed),
     "C05" => crate::o_star::c05(tier, seed),
+    "C09" => crate::o_c09::c09(tier, seed),
     "C10" => crate::o_ggm::c10(tier, seed),
     "C11" => crate::o_ggm::c11(tier, seed),
     "C12" => crate::o_ppoprf::c12(tier, seed),
